@@ -324,7 +324,7 @@ def run_enum(desc):
 
 
 PIECES = ['\\', '\\\\', '\\x', '\\x4', '\\x41', '\\x2a', '\\x5c', '\\x2f', '\\u', '\\u00', '\\u0041', '\\u002A', '\\U', '\\U0000004',
-          '\\U00000041', '\\U0001F600', '\\N', '\\N{', '\\N{}', '\\N{DIGIT ONE}', '\\N{LATIN SMALL LETTER A}', '\\N{NO SUCH NAME}',
+          '\\U00000041', '\\U0001F600', '\\UFFFFFFFF', '\\U00110000', '\\U80000000', '\\N', '\\N{', '\\N{}', '\\N{DIGIT ONE}', '\\N{LATIN SMALL LETTER A}', '\\N{NO SUCH NAME}',
           '\\N{ASTERISK}', '\\a', '\\b', '\\f', '\\n', '\\r', '\\t', '\\v', '\\0', '\\7', '\\52', '\\101', '\\1010', '\\377', '\\400', '\\8',
           '\\x7c', '\\174', '\\x7b', '\\x7d', '\\x2c', '\\x21', '\\x28', '\\x29', '\\x2d', '\\N{VERTICAL LINE}', '\\x40', ',',
           '\\/', '/', '*', '?', '[', ']', '(', ')', '@(', '|', '{', '}', 'a', 'A', '1', '4', '.', '-', '!', 'x', 'u', 'N', '\\c', '\\.', '\\*']
